@@ -25,5 +25,5 @@ CHECK = dict(
 )
 
 # build variants (bin/checks.py): only -DNDEBUG (side effects inside assert) - the schedule exploration is too expensive to repeat on every build
-CHECK['variants'] = [('c04', ['gcc -O2 -DNDEBUG']), 'c04deep']	# the cheap deterministic families run on every build
+CHECK['variants'] = [('c04', ['gcc -O2 -DNDEBUG']), ('c04deep', ['gcc -Os', 'gcc -O0', 'gcc -O2 -DNDEBUG'])]	# (clang's -fsanitize=thread ABI differs from the shim's)	# the cheap deterministic families run on every build
 CHECK['variant_tiers'] = {'gcc -O2 -DNDEBUG': ('quick',)}
